@@ -31,8 +31,14 @@ ChunkOf(e) ==
 \* the first clause of EmitOK that the event breaks ("" = none)
 EmitClause(e) ==
     LET ch == ChunkOf(e) IN
-    IF ~TitleOK(ch) THEN "title"
-    ELSE IF Len(e.rs) = 0 THEN "empty-chunk"
+    IF Len(e.rs) = 0
+    THEN \* a chunk without any unit: only where a hollow element stands, and it still
+         \* takes part in the numbering
+         IF ~HollowAt(consumed) THEN "empty-chunk"
+         ELSE IF ch.index # nchunks THEN "index"
+         ELSE IF ch.id \in ids THEN "id"
+         ELSE ""
+    ELSE IF ~TitleOK(ch) THEN "title"
     ELSE IF Len(e.rs) > 1 THEN "contiguous"
     ELSE IF ch.first <= consumed THEN "repeat"
     ELSE IF ch.first > consumed + 1 THEN "gap"
@@ -40,9 +46,9 @@ EmitClause(e) ==
     ELSE IF ch.index # nchunks THEN "index"
     ELSE IF ch.id \in ids THEN "id"
     ELSE LET els == ElemsOf(doc, ch.first, ch.first + ch.k - 1)
-             pgs == {doc[i].pg : i \in els}
+             pgs == PagesOf(ch.first, ch.k)
          IN IF ~(ch.ps <= ch.pe /\ ch.ps >= SetMin(pgs) /\ ch.pe <= SetMax(pgs)) THEN "page-range"
-            ELSE IF ~(\/ \E i \in els : \E m \in {7, minor} : ch.path = Enclosing(doc, i, m)
+            ELSE IF ~(\/ \E i \in els : \E m \in {7, minor} : ch.path = NormPath(Enclosing(doc, i, m))
                       \/ minor = 0 /\ WeakPath(ch.path, SetMax(els))) THEN "path"
             ELSE ""
 
